@@ -315,6 +315,8 @@ pub fn run_plans(rep: &Reporter, focus: &[&str], plans: &[Plan], deadline: Optio
     if plans.iter().any(|p| p.par1) { crate::rec::install_light_hook(); }
     let mut sorted: Vec<&Plan> = plans.iter().collect();
     sorted.sort_by_key(|p| p.limit.map_or(p.fam.count(), |l| l.min(p.fam.count())) * if p.rotate { 1 } else { p.variants.len() as u64 } * p.cfgs.len() as u64);
+    // maintenance knob (never set by a registered command): only the plans of one family, e.g. to regenerate a list of known inputs
+    if let Ok(only) = std::env::var("VERIF_ONLY_FAMILY") { sorted.retain(|p| p.fam.name() == only); }
     let mut total = Agg::default();
     let mut scopes = vec![];
     let mut all_complete = true;
